@@ -225,8 +225,15 @@ func (m *MboxSession) StartClient() {
 				return
 			}
 			m.Dials.Add(1)
-			conn, err := m.Client.Dial(m.ctx, "")
+			// As grpc does (addrConn.createTransport): every connection
+			// attempt gets a context of its own, which covers the dial and
+			// the credentials handshake and is cancelled as soon as the
+			// transport is up (or the attempt has failed). A connection
+			// must not depend on it afterwards.
+			dialCtx, dialDone := context.WithCancel(m.ctx)
+			conn, err := m.Client.Dial(dialCtx, "")
 			if err != nil {
+				dialDone()
 				select {
 				case <-time.After(100 * time.Millisecond):
 				case <-m.ctx.Done():
@@ -235,11 +242,13 @@ func (m *MboxSession) StartClient() {
 				continue
 			}
 			if m.ctx.Err() != nil {
+				dialDone()
 				_ = conn.Close()
 				return
 			}
 			ev := m.track("client", n, conn)
-			nc, _, err := m.C.Noise.ClientHandshake(m.ctx, "", conn)
+			nc, _, err := m.C.Noise.ClientHandshake(dialCtx, "", conn)
+			dialDone()
 			if err != nil {
 				m.mu.Lock()
 				ev.HSErr = err.Error()
